@@ -35,3 +35,38 @@ contract(UTIL, 'slices_from_targets',
     concrete_defaults={'slice_condition': 'lambda s: True'},
     at_yield_concrete=[],
     at_exit_concrete=['yields == ref_slices_from_targets(target_index, target_values, length, directional_forward, limit, slice_condition)'])
+
+_TOP = 'at(old(values_source), len(old(values_source)) - 1 - p)'       # p-th array from the top of the entry stack
+contract(CU, 'get_block_match',
+    props=['C08'],
+    params=dict(width='int', values_source='list[arr]'), order=['width', 'values_source'],
+    is_generator=True, yield_sort='arr',
+    requires=['width >= 1',
+              'forall_in(0, len(values_source), lambda k: (at(values_source, k).ndim == 1 or at(values_source, k).ndim == 2) and W(at(values_source, k)) >= 1)'],
+    raises={'IndexError': True},          # stack exhausted: declared, not characterised
+    ghost_init=['p = 0', 'got = 0', 'partial = 0'],
+    n_loops=1,
+    loops={0: dict(locals=dict(width_found='int', p='int', got='int', partial='int', v='arr', width_v='int', width_needed='int'),
+                   ghost_mods=['p', 'got', 'partial'],
+                   invariant=[
+        'got == width_found and 0 <= got and got <= width and partial == 0',
+        '0 <= p and p <= len(old(values_source)) and len(values_source) == len(old(values_source)) - p',
+        'forall_in(0, len(values_source), lambda k: at(values_source, k) == at(old(values_source), k))',
+    ])},
+    # every yield hands out the leading columns of the next array on the stack, never more than still needed
+    at_yield=[
+        'p < len(old(values_source))',
+        f'result.src == {_TOP}.src and result.off == {_TOP}.off and result.rows == {_TOP}.rows and result.dtype == {_TOP}.dtype',
+        f'1 <= W(result) and W(result) <= W({_TOP}) and got + W(result) <= width',
+        f'implies(W(result) < W({_TOP}), got + W(result) == width)',         # only the last array may be split
+    ],
+    yield_update=['partial = W(at(old(values_source), len(old(values_source)) - 1 - p)) - W(result)', 'got = got + W(result)', 'p = p + 1'],
+    at_exit=[
+        'got == width',                                                     # exactly `width` columns were drawn
+        # the rest of a split array goes back on top; everything below is untouched
+        'len(values_source) == len(old(values_source)) - p + cond(partial > 0, 1, 0)',
+        'forall_in(0, len(old(values_source)) - p, lambda k: at(values_source, k) == at(old(values_source), k))',
+        'implies(partial > 0, at(values_source, len(values_source) - 1).src == at(old(values_source), len(old(values_source)) - p).src'
+        ' and at(values_source, len(values_source) - 1).off == at(old(values_source), len(old(values_source)) - p).off + W(at(old(values_source), len(old(values_source)) - p)) - partial'
+        ' and W(at(values_source, len(values_source) - 1)) == partial)',
+    ])
